@@ -96,7 +96,8 @@ def handle (args : List String) (_impl : String) : String × String :=
     match op with
     | "addmul" =>
         let a := parseLimbs x2; let b := parseLimbs x3
-        (outLF (addmul W lhs a b), outLF (specAddmul W lhs a b))
+        -- `algorithms::addmul` GENERATED from the source (`Props/C15.gen_addmul_eq`)
+        (outLF (Ruint.Gen.addmul (lhs.length + a.length + b.length + 1) lhs a b), outLF (specAddmul W lhs a b))
     | "addmuln" =>
         let a := parseLimbs x2; let b := parseLimbs x3
         ((match addmulN W lhs a b with | some r => limbsStr r | none => "panic"),
